@@ -110,9 +110,15 @@ def _client_wires(case):
     from harness.drivers.c16 import FakeSock
     b = case["body"]
     tymist = tyming.Tymist()
-    cl = clienting.Client(hostname=HOST, port=PORT, method=case["method"], path=case["path"],
-                          qargs=dict((k, v) for k, v in case["qargs"]),
-                          headers=help.Hict([(k, v) for k, v in case["headers"]]), tymth=tymist.tymen())
+    nops = 1 + len(case.get("ops", []))
+    try:
+        cl = clienting.Client(hostname=HOST, port=PORT, method=case["method"], path=case["path"],
+                              qargs=dict((k, v) for k, v in case["qargs"]),
+                              headers=help.Hict([(k, v) for k, v in case["headers"]]), tymth=tymist.tymen())
+    except Exception as ex:     # a path naming another host / scheme is rejected (or resolved) by the constructor
+        return ["constructor: " + type(ex).__name__ + ": " + str(ex)[:80]] * nops
+    if cl.connector.ha != (HOST, PORT):
+        return ["constructor: other endpoint %r" % (cl.connector.ha,)] * nops
     sock = FakeSock((HOST, PORT), 50000)
     cl.connector.cs = sock
     cl.connector.accepted = True
@@ -648,7 +654,7 @@ def _op(rng, independent=False):
 
 
 def generate(rng, tier):
-    n = 380 if tier == "quick" else 4000
+    n = 300 if tier == "quick" else 3500
     out = []
     for i in range(n):
         c = _spec(rng)
